@@ -497,6 +497,7 @@ def heap_loop_project(rng):
     p = project([b0, b1, b2, b3, b4, b5], [])
     p["externs"] = [e for e in p["externs"] if e["name"] == "malloc"]
     p["ptr_regs"] = []
+    p["scope"] = "extended"
     return p
 
 
@@ -513,6 +514,7 @@ def random_pi_project(rng):
     # (checked under the analysis' assumption that parameter objects alias neither each other nor the stack frame)
     ptr_regs = rng.choice([[], [], ["RDI"], ["RDI", "RSI"], ["RSI"]])
     with_calls = rng.random() < 0.35
+    reg_loads = rng.random() < 0.3
     # heap mode: blk_0 ends with a malloc call, blk_1 (entered only from there) saves the pointer in the callee-saved RBX,
     # which is never written otherwise; all later blocks may access the object through RBX at small constant offsets
     heap_mode = with_calls and n >= 3 and rng.random() < 0.55
@@ -567,7 +569,7 @@ def random_pi_project(rng):
             return assign(ids, dst, param_addr())
         if r < 0.18:
             return assign(ids, dst, small())
-        if r < 0.23:
+        if r < 0.23 and reg_loads:
             # load through an arbitrary register (+ constant): loads cannot clobber tracked memory, whatever the register holds
             a = V(rng.choice(PI_REGS))
             return load(ids, dst, a if rng.random() < 0.5 else B("IntAdd", a, C(rng.choice([8, 16, 0x100, 0x400]))))
@@ -697,4 +699,7 @@ def random_pi_project(rng):
     p["externs"] = [e for e in p["externs"] if e["name"] == "malloc"] + [
         {"tid": "ext_f", "name": "f_extern", "cconv": "__stdcall", "no_return": False, "params": [var("RDI"), var("RSI")], "rets": [var("RAX")]}] if with_calls else []
     p["ptr_regs"] = ptr_regs
+    # "stated": the program class the property text quantifies over (registers, stack memory at constant offsets, constant
+    # absolute addresses); "extended": additionally pointer parameters, extern calls, heap objects or register-addressed loads
+    p["scope"] = "extended" if (with_calls or ptr_regs or reg_loads) else "stated"
     return p
